@@ -6,9 +6,12 @@ import (
 
 var c17Avg bool
 
-// the average needs FP addition/division (expensive to bit-blast): 1..2 responses in the quick tier
+// the average needs FP addition/division (expensive to bit-blast): 1..2 responses in both tiers.  With three
+// responses the thorough tier ran 52 minutes and returned models that do not reproduce natively (the
+// solver's floating-point division of a three-term sum and Go's agree only up to the last bit, which the
+// 8-decimal comparison then amplifies): three-response averages are outside the claim.
 func c17MaxN() int {
-	if c17Avg && verifTier() == 0 {
+	if c17Avg {
 		return 2
 	}
 	return 3
